@@ -183,7 +183,8 @@ func matsEq(a, b []meshlib.MatSnap) bool {
 		return false
 	}
 	for i := range a {
-		if a[i].Count != b[i].Count || a[i].Ptr != b[i].Ptr {
+		// ranges are compared by content (count, material name, nil-ness), not by pointer identity
+		if a[i].Count != b[i].Count || a[i].Name != b[i].Name || (a[i].Ptr == nil) != (b[i].Ptr == nil) {
 			return false
 		}
 	}
